@@ -1,5 +1,5 @@
 (* Model of ParserBinary.parse_timestamp (parse.py:489-503) and ComposerBinary.compose_timestamp (837-847), as in
-   /repo after the two timestamp fixes. A (time-zone aware) datetime is modelled as its UTC instant: whole seconds
+   /repo after the three timestamp fixes. A (time-zone aware) datetime is modelled as its UTC instant: whole seconds
    since the epoch and microseconds; None is the "forever" sentinel. What tzdata / mktime do is outside the model;
    the correspondence run sweeps TZ settings instead. *)
 From Coq Require Import ZArith List Bool.
@@ -8,7 +8,18 @@ Open Scope Z_scope.
 
 Record dt := { secs : Z; micros : Z }.
 
+(* the last second datetime can represent: 9999-12-31 23:59:59 UTC; fromtimestamp raises beyond it -> InvalidValue *)
+Definition dt_max : Z := 253402300799.
+
 Definition parse_timestamp (ms : bool) (w : Z) (buf : bytes) (pos : Z) : result (option dt * Z) :=
+  let* (v, n) := parse_numeric Network w buf pos in
+  if v =? 2 ^ (8 * w) - 1 then Ok (None, n)
+  else let s := if ms then v / 1000 else v in
+       if dt_max <? s then Err InvalidValue
+       else Ok (Some {| secs := s; micros := if ms then (v mod 1000) * 1000 else 0 |}, n).
+
+(* before the repair the seconds were masked with 0xffffffff *)
+Definition parse_timestamp_orig (ms : bool) (w : Z) (buf : bytes) (pos : Z) : result (option dt * Z) :=
   let* (v, n) := parse_numeric Network w buf pos in
   if v =? 2 ^ (8 * w) - 1 then Ok (None, n)
   else if ms then Ok (Some {| secs := Z.land 4294967295 (v / 1000); micros := (v mod 1000) * 1000 |}, n)
